@@ -21,6 +21,7 @@ type Violation struct {
 	Idx        int    `json:"idx,omitempty"`
 	Shard      int    `json:"shard,omitempty"`
 	NShards    int    `json:"nshards,omitempty"`
+	GOMAXPROCS int    `json:"gomaxprocs,omitempty"` // setting of the process that saw it (sync.Pool sharing depends on it)
 	// plans that must run first, in the same process, for the violation to show
 	Prefix []json.RawMessage `json:"prefix,omitempty"`
 }
